@@ -22,7 +22,7 @@ RULE = ("H1 (real quote.c, token822.c, qmail-remote.c addrmangle, commands.c, qm
         "addrlist(ts) and addrlist(ts without comment tokens) return the same value and make the same callbacks (C17_comments_ignored); "
         "addrlist callbacks = listed mailboxes; envelope recipients = listed mailboxes after the "
         "documented rewriting per strategy; no Bcc/Resent-Bcc/Return-Path/Content-Length in the output; second injection yields the same visible recipients. "
-        "non-trivial = distinct case whose local part needs quoting (Q), whose string is longer than 3 bytes (P), or that carries generated mailboxes (I)")
+        "non-trivial = distinct case whose local part needs quoting (Q), whose string is longer than 3 bytes (P), whose rendering has more than 3 tokens (R), or that carries generated mailboxes (I)")
 
 SMTPD_EXCLUDE = ["ipme.o"]
 Q_EXTRA = ("timeoutconn.o tcpto.o dns.o quote.o token822.o ndelay.a lock.a stralloc.a substdio.a error.a str.a fs.a open.a `cat dns.lib`")
